@@ -272,8 +272,45 @@ fn intersect_minus(a: &D, b: &D, minus: &[D]) -> Value {
     json!({"overlap": false, "empty_overlap": empty_overlap, "product_states": explored})
 }
 
+const OPS: &[&str] = &["<<=", ">>=", "...", "..=", "::", "->", "=>", "==", "!=", "<=", ">=", "&&", "||", "+=", "-=", "*=", "/=", "%=", "^=", "&=", "|=", "<<", ">>", ".."];
+
+fn split_ops(run: &str, out: &mut Vec<String>) {
+    // maximal munch over Rust's multi-character operators, as rustc's lexer would
+    let cs: Vec<char> = run.chars().collect();
+    let mut i = 0;
+    while i < cs.len() {
+        let mut matched = 1;
+        for op in OPS {
+            let oc: Vec<char> = op.chars().collect();
+            if oc.len() > matched && i + oc.len() <= cs.len() && cs[i..i + oc.len()] == oc[..] {
+                matched = oc.len();
+            }
+        }
+        out.push(cs[i..i + matched].iter().collect());
+        i += matched;
+    }
+}
+
 fn flatten(ts: proc_macro2::TokenStream, out: &mut Vec<String>) {
+    let mut run = String::new();
+    let mut joint = false;
     for tt in ts {
+        if let proc_macro2::TokenTree::Punct(p) = &tt {
+            if p.as_char() != '\'' {
+                if !joint && !run.is_empty() {
+                    let r = std::mem::take(&mut run);
+                    split_ops(&r, out);
+                }
+                run.push(p.as_char());
+                joint = p.spacing() == proc_macro2::Spacing::Joint;
+                continue;
+            }
+        }
+        if !run.is_empty() {
+            let r = std::mem::take(&mut run);
+            split_ops(&r, out);
+        }
+        joint = false;
         match tt {
             proc_macro2::TokenTree::Group(g) => {
                 let (o, c) = match g.delimiter() {
@@ -286,16 +323,12 @@ fn flatten(ts: proc_macro2::TokenStream, out: &mut Vec<String>) {
                 flatten(g.stream(), out);
                 out.push(c.to_string());
             }
-            proc_macro2::TokenTree::Punct(p) => {
-                // keep joint-ness: `= >` and `=>` are different programs
-                let mut s = p.as_char().to_string();
-                if p.spacing() == proc_macro2::Spacing::Joint {
-                    s.push('~');
-                }
-                out.push(s);
-            }
+            proc_macro2::TokenTree::Punct(p) => out.push(p.as_char().to_string()),
             other => out.push(other.to_string()),
         }
+    }
+    if !run.is_empty() {
+        split_ops(&run, out);
     }
 }
 
